@@ -684,6 +684,9 @@ pub fn mixed_h(prop: &str, threads: usize, ops: u64, nkeys: u32, cap: Option<u64
                 }
             }
         }
+        "C11" if ttl_ms.is_some() && !snap.entries.is_empty() => {
+            violation = Some(viol("C11", format!("time_to_live is {} ms; {} ms after the last write and after two maintenance runs the cache still holds {} entries (keys {:?}) and their key/value objects", ttl_ms.unwrap(), ttl_ms.unwrap() + 5, snap.entries.len(), snap.entries.iter().map(|e| e.k).take(8).collect::<Vec<_>>()), params.clone()));
+        }
         "C11" => {
             let (lk, lv, n) = (reg.live_keys(), reg.live_vals(), snap.entries.len());
             if reg.double_drop() {
@@ -702,6 +705,16 @@ pub fn mixed_h(prop: &str, threads: usize, ops: u64, nkeys: u32, cap: Option<u64
         _ => {}
     }
     let n_after = snap.entries.len() as u64;
+    if violation.is_none() && prop == "C11" {
+        // everything still resident is hidden by invalidate_all; the next maintenance run
+        // must remove it and release its objects
+        cache.invalidate_all();
+        cache.sync();
+        let left = sync_snapshot(&cache);
+        if !left.entries.is_empty() || reg.live_keys() != 0 || reg.live_vals() != 0 {
+            violation = Some(viol("C11", format!("{n_after} entries were resident after the threads stopped; invalidate_all() + sync() left {} of them in the cache (keys {:?}), {} key objects and {} value objects alive", left.entries.len(), left.entries.iter().map(|e| e.k).take(8).collect::<Vec<_>>(), reg.live_keys(), reg.live_vals()), params.clone()));
+        }
+    }
     drop(cache);
     if violation.is_none() && prop == "C11" && (reg.live_keys() != 0 || reg.live_vals() != 0) {
         violation = Some(viol("C11", format!("after dropping the last handle {} key objects and {} value objects are still alive", reg.live_keys(), reg.live_vals()), params.clone()));
@@ -764,9 +777,13 @@ pub fn stress_worker(a: &WorkerArgs) -> WorkerResult {
                 }
             }
             // all keys in one shard of the map: maximal lock contention
-            if res.violation.is_none() {
-                let o = mixed_h(&a.prop, 6, 6_000 * scale, 24, if a.idx % 2 == 0 { None } else { Some(16) }, false, None, splitmix(x ^ 99), true);
-                add(o, &mut res, 10);
+            for round in 0..8u64 {
+                if res.violation.is_some() {
+                    break;
+                }
+                let sel = a.idx + round;
+                let o = mixed_h(&a.prop, 4 + 2 * (sel as usize % 3), 2_500 * scale, 24 + 8 * (sel as u32 % 4), if sel % 2 == 0 { None } else { Some(16) }, false, if sel % 4 >= 2 { Some(3) } else { None }, splitmix(x ^ 99 ^ (round << 20)), true);
+                add(o, &mut res, 10 + round * 16);
             }
         }
         "C16" => {
